@@ -23,8 +23,8 @@ PROPS = {
     },
 }
 
-_PARSE_NOTE = "assumed: vstd specs (Vec, Seq, Option, IteratorSpec prophecy model); dependency stubs DecodedChar/Span/Meta/SmallVec/SmallString/NumberBuf::new_unchecked (contracts read off their sources; DecodedChar and Span discharged by Kani); Object::new/push (contract proved in unit object); char::to_digit / char::from_u32 (std contracts, discharged by Kani) / char ordering; Option::transpose; derived Default of CodeMap; usize is 64-bit; total input byte length fits usize. NOT proved: termination of the main loop of Value::parse_in (vstd's iterator measure is unconstrained after end of input; bounded stand-in), the adapter entry points parse_str/parse_slice/parse_utf8*/parse_infallible* (iterator adapters outside Verus; bounded stand-in compares all of them with parse_with)."
-_DOC = " End to end: Value::parse_in is proved (explicit-stack machine vs the recursive-descent specification `doc` = RFC 8259 `ws value ws`, by the inductive lemmas lemma_run_array / lemma_run_object) to return exactly the denoted value, fragment index and code map, or the specified error, for every input stream and option record; Value::parse / parse_with are proved to be `doc` on the whole input from byte 0 with an empty code map."
+_PARSE_NOTE = "assumed: vstd specs (Vec, Seq, Option, IteratorSpec prophecy model); dependency stubs DecodedChar/Span/Meta/SmallVec/SmallString/NumberBuf::new_unchecked (contracts read off their sources; DecodedChar and Span discharged by Kani); Object::new/push (contract proved in unit object); char::to_digit / char::from_u32 (std contracts, discharged by Kani) / char ordering; Option::transpose; derived Default of CodeMap; usize is 64-bit; total input byte length fits usize. R12: in parse_str / parse_str_with / parse_utf8 / parse_utf8_with the adapter expressions `content.chars().map(Ok)` and `chars.map(|c| c.map(DecodedChar::from_utf8))` (closures over iterators, outside Verus) are replaced by assumed stubs that yield the same characters with their UTF-8 lengths; with that, these four entry points are proved to be `doc` on the text's characters. NOT proved: termination of the main loop of Value::parse_in (vstd's iterator measure is unconstrained after end of input; bounded stand-in), parse_slice* (UTF-8 validation + chain) and parse_infallible* (bounded stand-in compares every entry point with parse_with)."
+_DOC = " End to end: Value::parse_in is proved (explicit-stack machine vs the recursive-descent specification `doc` = RFC 8259 `ws value ws`, by the inductive lemmas lemma_run_array / lemma_run_object) to return exactly the denoted value, fragment index and code map, or the specified error, for every input stream and option record; Value::parse / parse_with / parse_str / parse_str_with / parse_utf8 / parse_utf8_with are proved to be `doc` on the whole input from byte 0 with an empty code map."
 for _pid, _title, _text in [
     ("C01", "Strict acceptance", "Unbounded proof that every lexical/structural fragment parser accepts exactly the RFC 8259 production it implements (literals, number automaton, string grammar, begin/end/separator fragments), for every input stream and every option record." + _DOC),
     ("C02", "Faithful decoding", "Unbounded proof that the number parser keeps the consumed characters byte for byte (all ASCII), that parse_hex4 computes the code unit, that the string parser returns exactly the RFC 8259 section 7 decoding (escapes, surrogate pairs), and that arrays/objects are built from their items/members in document order with duplicates kept." + _DOC),
